@@ -147,7 +147,13 @@ def _crc_cases(args):
             val.append([[obs[0] ^ 1, obs[1]], codec.crc_validate("at4", b, [obs[0] ^ 1, obs[1]])])
             val.append([[obs[0]], _exc(codec.crc_validate("at4", b, [obs[0]]))])
             val.append([obs + [0], _exc(codec.crc_validate("at4", b, obs + [0]))])
-        out.append({"id": i, "b": b, "obs": obs, "val": val})
+        swept, acc = False, []
+        if i in (65, 256 + 0x1234, 256 + 0xB080, 65791):     # all 65536 check-byte values for a few buffers
+            swept = True
+            for chk in range(65536):
+                if codec.crc_validate("at4", b, [chk >> 8, chk & 255]) is True:
+                    acc.append([chk >> 8, chk & 255])
+        out.append({"id": i, "b": b, "obs": obs, "val": val, "swept": swept, "acc": acc})
     return out
 
 
@@ -250,6 +256,14 @@ def check_c06(rep):
                 start = rng.randrange(lo * 8, len(fr) * 8 - L)
                 mid = [start + k for k in range(1, L - 1) if rng.random() < 0.5]
                 pats.append([(p // 8, p % 8) for p in [start] + mid + [start + L - 1]])
+            # corruption confined to the two check bytes: the byte-swap pattern and (thorough) all 65535 patterns
+            hi, lo_ = fr[-2], fr[-1]
+            chk_pats = [((hi ^ lo_) << 8) | (hi ^ lo_)] + ([p_ for p_ in range(1, 65536)] if (not q and ki == 0)
+                                                          else [rng.randrange(1, 65536) for _ in range(30)])
+            for cp in chk_pats:
+                if cp:
+                    pats.append([(len(fr) - 2, b_) for b_ in range(8) if (cp >> 8) >> b_ & 1] +
+                                [(len(fr) - 1, b_) for b_ in range(8) if (cp & 255) >> b_ & 1])
             for pat in pats:
                 f = list(fr)
                 for i, b in pat:
